@@ -35,3 +35,59 @@ Definition canonical_header (large : bool) (payloadLen : N) : list N :=
 Definition header_at (file : list N) (startPos : N) (large : bool) (payloadLen : N) : bool :=
   eqb_list (sub file startPos (hdr_len large)) (canonical_header large payloadLen)
   && (large || (8 + payloadLen <? 4294967296)).
+
+(* ------------------------------------------------------------------ sample layout (ISO 14496-12 8.7) *)
+Fixpoint seqN (from : N) (count : nat) : list N :=
+  match count with O => [] | S c => from :: seqN (from + 1) c end.
+
+(* size of sample k (1-based): stsz entry, or the uniform size when there is no per-sample table *)
+Definition size_of (tb : stbl) (k : N) : N :=
+  if lenN (sample_sizes tb) <? k then uniform_size tb
+  else nth (N.to_nat (k - 1)) (sample_sizes tb) 0.
+
+Definition sizes_from (tb : stbl) (from : N) (count : nat) : list N := map (size_of tb) (seqN from count).
+
+Definition chunk_offset_of (tb : stbl) (c : chunk) : N := nth (N.to_nat (cnr c - 1)) (chunk_offsets tb) 0.
+
+(* sample k of chunk c starts at the chunk offset plus the sizes of the chunk's earlier samples *)
+Definition sample_offset (tb : stbl) (c : chunk) (k : N) : N :=
+  chunk_offset_of tb c + sumN (sizes_from tb (cstart c) (N.to_nat (k - cstart c))).
+
+Definition sample_bytes (file : list N) (tb : stbl) (c : chunk) (k : N) : list N :=
+  sub file (sample_offset tb c k) (size_of tb k).
+
+(* the bytes of samples a..b, sample by sample, over a run of consecutive chunks *)
+Definition chunk_expected (file : list N) (tb : stbl) (a b : N) (c : chunk) : list N :=
+  concat (map (fun k => if (a <=? k) && (k <=? b) then sample_bytes file tb c k else [])
+              (seqN (cstart c) (N.to_nat (cn c)))).
+
+Definition expected_samples (file : list N) (tb : stbl) (chunks : list chunk) (a b : N) : list N :=
+  concat (map (chunk_expected file tb a b) chunks).
+
+(* `chunks` is a run of consecutive chunks (each starts at the sample after the previous one's last)
+   whose last chunk contains sample b *)
+Fixpoint run_ok (b : N) (chunks : list chunk) : bool :=
+  match chunks with
+  | [] => false
+  | c :: rest =>
+      match rest with
+      | [] => (cstart c <=? b) && (b <? cstart c + cn c)
+      | c' :: _ => (cstart c' =? cstart c + cn c) && run_ok b rest
+      end
+  end.
+
+(* ... and whose first chunk contains sample a; 1 <= a <= b < 2^32 - 1 *)
+Definition chunks_cover (a b : N) (chunks : list chunk) : bool :=
+  match chunks with
+  | [] => false
+  | c :: _ => (1 <=? cstart c) && (cstart c <=? a) && (a <? cstart c + cn c)
+  end && (a <=? b) && (b <? 4294967295) && run_ok b chunks.
+
+(* every chunk of the run has an stco/co64 entry and lies inside [pstart, pend) *)
+Definition chunk_in_payload (tb : stbl) (pstart pend : N) (c : chunk) : bool :=
+  (1 <=? cnr c) && (cnr c <=? lenN (chunk_offsets tb))
+  && (pstart <=? chunk_offset_of tb c)
+  && (chunk_offset_of tb c + sumN (sizes_from tb (cstart c) (N.to_nat (cn c))) <=? pend).
+
+Definition chunks_in_payload (tb : stbl) (startPos : N) (large : bool) (payloadLen : N) (chunks : list chunk) : bool :=
+  forallb (chunk_in_payload tb (startPos + hdr_len large) (startPos + hdr_len large + payloadLen)) chunks.
